@@ -185,7 +185,7 @@ def decide(vars_, info, chrom):
         if pi is None:
             continue
         ps, ph = pi
-        sc = scores.setdefault(ps, [0, 0])
+        sc = scores.setdefault(ps, [0] * len(ph))
         for h, ha in enumerate(ph):
             if al == ha:
                 sc[h] += q
@@ -196,11 +196,11 @@ def decide(vars_, info, chrom):
     for ps, s in scores.items():
         if max(s) != top:
             continue
-        if s[0] == s[1]:
-            outs.add(None)
+        srt = sorted(s, reverse=True)
+        if srt[0] == srt[1]:
+            outs.add(None)  # the two best haplotypes tie
         else:
-            h = 0 if s[0] > s[1] else 1
-            outs.add((h + 1, ps, abs(s[0] - s[1])))
+            outs.add((s.index(srt[0]) + 1, ps, srt[0] - srt[1]))
     return outs, scores
 
 
@@ -224,6 +224,8 @@ def run_haplotag_once(vcf, bam, out, sim, opts, listfile):
             kw[k] = opts[k]
     if opts.get("samples"):
         kw["given_samples"] = opts["samples"]
+    if opts.get("ploidy", 2) != 2:
+        kw["ploidy"] = opts["ploidy"]
     del _CAP["reads"][:]
     run_haplotag(**kw)
     return list(_CAP["reads"])
@@ -245,10 +247,22 @@ def run_one(rng, counters):
                 "vcf_tag": rng.choice(["PS", "HP"])}
         if not opts["use_ref"]:
             p["allow_shiftable"] = False
-        sim = genome.simulate(rng, tmp, p)
+        P = rng.choice([2, 2, 2, 3, 4])
+        opts["ploidy"] = P
+        if P == 2:
+            sim = genome.simulate(rng, tmp, p)
+        else:
+            p = {"ploidy": P, "n_chrom": p["n_chrom"], "chrom_len": 3000, "n_var": rng.randint(5, 14), "samples": samples, "depth": rng.choice([2, 4]),
+                 "read_len": (200, 800), "error_rate": p["error_rate"], "paired": p["paired"], "collapse": rng.choice([0.0, 0.5])}
+            opts["use_ref"] = True
+            opts["vcf_tag"] = "PS"
+            sim = genome.simulate_poly(rng, tmp, p)
         if not sim.reads:
             return [], False, {"params": p}
-        doc, blocks = genome.truth_phased_doc(sim, rng, tag=opts["vcf_tag"], block_len=(3, 9))
+        if P == 2:
+            doc, blocks = genome.truth_phased_doc(sim, rng, tag=opts["vcf_tag"], block_len=(3, 9))
+        else:
+            doc, blocks = genome.truth_phased_doc_poly(sim, rng, block_len=(3, 9))
         vcf = os.path.join(tmp, "phased.vcf.gz")
         doc.write(vcf, compress=True)
         bam = build_bam(rng, sim, tmp, opts)
@@ -261,6 +275,13 @@ def run_one(rng, counters):
             c = rng.choice(sim.chroms)
             s = rng.randint(0, 1500)
             opts["regions"] = [(c, s, s + rng.randint(300, 1500))]
+        elif rmode < 0.3 and len(sim.chroms) > 1:
+            # bounded regions on two contigs
+            regs = []
+            for c in sim.chroms:
+                s_ = rng.randint(0, 1200)
+                regs.append((c, s_, s_ + rng.randint(400, 1700)))
+            opts["regions"] = regs
         elif rmode < 0.45:
             c = sim.chroms[0]
             cuts = sorted(rng.sample(range(100, 2900), rng.choice([1, 2, 3])))
@@ -285,6 +306,9 @@ def run_one(rng, counters):
                 return [], False, desc
             return [{"mech": "crash:" + last.split(":")[0], "msg": "run_haplotag raised: " + tb[-1500:]}], False, desc
         counters["runs_ok"] = counters.get("runs_ok", 0) + 1
+        counters["runs_ploidy_%d" % opts["ploidy"]] = counters.get("runs_ploidy_%d" % opts["ploidy"], 0) + 1
+        if opts.get("regions"):
+            counters["runs_with_regions"] = counters.get("runs_with_regions", 0) + 1
         counters["hook_reads_seen"] = counters.get("hook_reads_seen", 0) + len(cap)
         viol = []
         # ---------------- conservation
@@ -366,6 +390,7 @@ def run_one(rng, counters):
             (c0, s0) = rng.choice(sorted(blocks))
             if s0 in targets and blocks[(c0, s0)]:
                 bid = rng.choice(sorted(blocks[(c0, s0)]))
+                sw_i, sw_j = rng.sample(range(P), 2)
                 doc2, _ = None, None
                 import copy
 
@@ -379,8 +404,9 @@ def run_one(rng, counters):
                     if dd is None or int(dd[1]) != bid:
                         continue
                     if opts["vcf_tag"] == "PS":
-                        a_, b_ = call["GT"].split("|")
-                        call["GT"] = "%s|%s" % (b_, a_)
+                        al_ = call["GT"].split("|")
+                        al_[sw_i], al_[sw_j] = al_[sw_j], al_[sw_i]
+                        call["GT"] = "|".join(al_)
                     else:
                         parts = call["HP"].split(",")
                         call["HP"] = ",".join(reversed(parts))
@@ -401,8 +427,8 @@ def run_one(rng, counters):
                         ta, tb_ = tags_of(a), tags_of(b)
                         rg_ok = (not a.has_tag("RG")) or a.get_tag("RG") == "rg_" + s0 or opts.get("ignore_read_groups")
                         in_set = ta is not None and ta[1] == bid and a.reference_name == c0 and rg_ok
-                        if in_set:
-                            want = (3 - ta[0], ta[1], ta[2])
+                        if in_set and ta[0] in (sw_i + 1, sw_j + 1):
+                            want = ((sw_j + 1) if ta[0] == sw_i + 1 else (sw_i + 1), ta[1], ta[2])
                         else:
                             want = ta
                         if tb_ != want:
